@@ -39,7 +39,9 @@ class C16(StdCheck):
     required_theorems = ["target_hosts_sound_complete", "target_services_sound_complete", "indexed_eq_plain_partial",
                          "indexed_eq_plain_counterexample_shadow", "indexed_eq_plain_counterexample_forkind",
                          "indexSafe_of_no_for", "indexed_eq_plain_without_for", "apply_exactly_matching", "order_independent",
-                         "api_fast_path_eq_plain_partial", "api_fast_path_counterexample_shadowed_constant"]
+                         "api_fast_path_eq_plain_partial", "api_fast_path_counterexample_shadowed_constant",
+                         "indexed_full_eq_plain_full_partial", "extended_services", "apply_exactly_matching_full",
+                         "order_independent_full", "model_load_meets_spec_partial", "model_load_meets_spec_counterexample"]
     technique = ("Lean 4 proof (soundness/completeness of the filter-shape recogniser by induction on the recognised shape; refinement "
                  "'indexed = plain' as sets via a per-(rule,target) equivalence of outcomes; set comprehension characterisation of plain "
                  "evaluation) over a hand-written model of ApplyRule::AddTargetedRule/GetTargetHosts/GetTargetServices, "
@@ -54,7 +56,9 @@ class C16(StdCheck):
                   "set of objects provided a recognised rule does not name its loop variable host/service and its for-value has the expected "
                   "kind on every target (both exclusions have kernel-checked counterexamples, reproduced on the real code: F-C16a, F-C16b); plain "
                   "evaluation creates an object exactly for the (rule, target, for-instance) triples where some assign is true and no ignore is; "
-                  "both are invariant under permuting rules/hosts/services; the API fast path returns the same set as evaluation provided no "
+                  "both are invariant under permuting rules/hosts/services; all of this also for whole loads in which services created by apply Service "
+                  "rules become targets of the to-Service rules; the model's whole observable trace (as written / wrapped / 16 threads) satisfies "
+                  "the executable specification predicate under the same hypothesis (model_load_meets_spec_partial, with counterexample); the API fast path returns the same set as evaluation provided no "
                   "filter_vars key is a name the evaluator binds itself (counterexample F-C16c, reproduced). The model is tied to the code by "
                   "loading thousands of generated configurations (4 source types x Host/Service targets, for-loops over arrays/dictionaries, "
                   "ignore where, constants, filters concentrated on the recognised shapes and their near misses) and comparing the created "
@@ -64,8 +68,8 @@ class C16(StdCheck):
     level_note = ("Trusted: Lean kernel (+ propext, Classical.choice, Quot.sound), harness/driver, the sampled correspondence. The values of "
                   "opaque sub-expressions (custom variables, groups, function calls) per target are oracle inputs evaluated by the real "
                   "interpreter. Not modelled: evaluation of the rule body beyond the recorded loop variables/target names, name collisions "
-                  "between created objects, ignore_on_error, zones/packages, use() closures in the harness (the model has them), permission "
-                  "filters (C18). No whole-trace theorem 'model trace meets specLoad' yet: the sub-claims are proved separately.")
+                  "between created objects (the driver rejects such cases explicitly), ignore_on_error, zones/packages, permission filters (C18), "
+                  "opaque atoms on services that exist only through apply Service (the generator uses none there).")
     trusted_base = [
         "modelled, not verified: expression evaluation of the nine AST classes the recogniser inspects, Value::operator==/ToBool, "
         "VMOps::GetField for `name`; every other expression is an opaque atom whose truth per target is read from the implementation",
@@ -79,7 +83,8 @@ class C16(StdCheck):
         "`(F) && true` is never recognised by the name index and has the truth value and errors of F",
     ]
     rule = ("seeded random configurations: 1-6 hosts (+ parent host zp), 0-3 services each, vars.os/groups/arr/dict/mix, optional constants; "
-            "1-4 apply rules over the 7 legal source/target combinations, for-loops over literal or per-object arrays/dictionaries (incl. "
+            "optional top-level variables captured with use(); 1-4 apply rules over the 7 legal source/target combinations (apply Service next to "
+            "to-Service rules that name the created services: cascade), for-loops over literal or per-object arrays/dictionaries (incl. "
             "loop variables named host/service and kind-mismatched values), assign filters ~55 % recognisable shapes (1-3 disjuncts, swapped "
             "operands, redundant parentheses, duplicates, several assign lines) with single near-miss mutations (!=, constant or number "
             "instead of literal, extra conjunct, host<->service, dropped/duplicated comparison, && for ||, negation), otherwise random boolean "
@@ -143,7 +148,7 @@ class C16(StdCheck):
         res = super().correspondence(tier, seed, harness, driver)
         st = res.stats
         need = {"rules_targeted": 100, "rules_regular": 100, "created_by_index": 50, "api_recognised": 20,
-                "rules_for": 50, "rules_ignore": 20}
+                "rules_for": 50, "rules_ignore": 20, "cascade_cases": 20, "rules_use": 50}
         short = {k: st.get(k, 0) for k, v in need.items() if st.get(k, 0) < v}
         if short:
             raise core.TieBroken("harness:c16:coverage", f"generator no longer reaches: {short}")
@@ -172,23 +177,23 @@ class C16(StdCheck):
         cl = finding.detail.get("clause", "")
         c = entry.get("classifier")
         if c in ("c16_loopvar_shadows_target", "c16_for_kind_mismatch_off_target"):
-            if cl != "fastpath_independent" or len(rules) != 1:
+            # minimised witness: one rule, or two in a cascade (an `apply Service` rule creating the target of a to-Service rule)
+            cascade = len(rules) == 2 and sorted(r["tgt"] for r in rules) == ["H", "S"]
+            if cl != "fastpath_independent" or not (len(rules) == 1 or cascade):
                 return False
-            r = rules[0]
             lobs = [_kv_after_bar(l) for l in case if l.startswith("L")]
             if len(lobs) != 1 or not lobs[0].get("p1", "").startswith("ok:") or lobs[0].get("w1") != "rejected":
                 return False
-            # exactly one recognisable shape: no ignore, only name comparisons joined by | (and & for services)
-            if any(e.startswith("i=") for e in r["exprs"]):
-                return False
+            # the model reproduces both observations and itself predicts the divergence; by indexed_full_eq_plain_full_partial
+            # the model diverges only if some recognised rule violates IndexSafe: a loop variable named host/service
+            # (F-C16a) or a `for` value of the wrong kind on a target (F-C16b)
             ok, stats = self._model_agrees(case)
-            if not ok or stats.get("model_index_vs_plain_diverge") != "1" or stats.get("rules_targeted") != "1":
+            if not ok or stats.get("model_index_vs_plain_diverge") != "1":
                 return False
+            shadow = any(_shadowing(r) for r in rules)
             if c == "c16_loopvar_shadows_target":
-                return _shadowing(r)
-            # not shadowing + the model (which diverges only when IndexSafe fails, proved) predicts the divergence
-            # => the `for` value has the wrong kind on a target the filter does not name
-            return (not _shadowing(r)) and r["for"] != "-"
+                return shadow
+            return (not shadow) and any(r["for"] != "-" for r in rules)
         if c == "c16_filter_var_shadowed_by_target":
             if cl != "api_fastpath_independent":
                 return False
